@@ -45,7 +45,8 @@ func main() {
 		run = func(r *simcore.Run) {
 			cfg := chansim.DrawConfig(r.Tape)
 			mode := chansim.Mode{Cuts: true, StripDLP: true, StaleWrites: true,
-				MaxSteps: 60 + 30*r.Tape.CfgDraw(3), MaxHtlcs: []int{3, 8, 16}[r.Tape.CfgDraw(3)]}
+				MaxSteps: 60 + 30*r.Tape.CfgDraw(3), MaxHtlcs: []int{3, 8, 16}[r.Tape.CfgDraw(3)],
+				MediumDen: 40, MediumHtlcs: 120}
 			r.Arm = "cuts/" + cfg.TypeName
 			chansim.NewSim(r, cfg, mode).Run()
 		}
@@ -54,7 +55,8 @@ func main() {
 			cfg := chansim.DrawConfig(r.Tape)
 			cfg.NoRevLogAmt = r.Tape.CfgDraw(4) == 0
 			mode := chansim.Mode{Cuts: true, WriteFail: true, StaleWrites: true, ForkReload: 1, ForkResume: 3,
-				MaxSteps: 40 + 20*r.Tape.CfgDraw(2), MaxHtlcs: []int{3, 8, 16}[r.Tape.CfgDraw(3)]}
+				MaxSteps: 40 + 20*r.Tape.CfgDraw(2), MaxHtlcs: []int{3, 8, 16}[r.Tape.CfgDraw(3)],
+				MediumDen: 40, MediumHtlcs: 80}
 			if thorough {
 				mode.ForkResume = 8
 			}
@@ -70,7 +72,7 @@ func main() {
 			}
 			cfg := chansim.DrawConfig(r.Tape)
 			mode := chansim.Mode{Cuts: true, WriteFail: true, StaleWrites: true, ForkReload: 3, ForkResume: 1, ForgedRev: true,
-				MaxSteps: 50 + 30*r.Tape.CfgDraw(2), MaxHtlcs: 6}
+				MaxSteps: 50 + 30*r.Tape.CfgDraw(2), MaxHtlcs: 6, MediumDen: 40, MediumHtlcs: 60}
 			r.Arm = "release-rule/" + cfg.TypeName
 			chansim.NewSim(r, cfg, mode).Run()
 		}
